@@ -485,6 +485,22 @@ func runC13(c C13Case) *Result {
 	if err := w.checkOne(orig); err != nil {
 		return res.failf("after the failed writes the original changed: %v", err)
 	}
+	// a write that failed must not show in the next one: write once more to a healthy sink
+	if len(offs) > 0 {
+		var again bytes.Buffer
+		an, aerr := serialize(orig, &again)
+		if aerr != nil || an != again.Len() || an != len(stream) {
+			return res.failf("%s: the write after %d failed writes reported %d bytes, produced %d (the first write: %d), error %v", c.Cfg, 2*len(offs), an, again.Len(), len(stream), aerr)
+		}
+		in, _, rerr, perr := restore(c.Cfg, bytes.NewReader(again.Bytes()))
+		if perr != nil || rerr != nil {
+			return res.failf("%s: restoring the stream written after the failed writes: %v %v", c.Cfg, rerr, perr)
+		}
+		if e := sameState(orig, in, maxPos, w.ever); e != nil {
+			return res.failf("%s: the stream written after %d failed writes restores to a different state: %v", c.Cfg, 2*len(offs), e)
+		}
+		res.count("writes-after-failed-writes", 1)
+	}
 
 	// 4. original and every restored copy evolve identically
 	for i, st := range c.After {
